@@ -135,6 +135,24 @@ Theorem C15_product_reward_pointwise :
 Proof. exact product_reward_pointwise. Qed.
 Print Assumptions C15_product_reward_pointwise.
 
+(* ---- the ROUTES of class Coalescent (moment, _raw_moment, accumulate, _get_dist, tree_height, total_branch_length, sfs, fsfs),
+   PINNED in gen/CoalescentGen.v and re-checked against the source on every run by translate/coalescent2coq.py ---- *)
+From PG Require Import model.Rewards gen.CoalescentGen proofs.GenCoalescentEquiv.
+Theorem C15_distributions_py_moment_default_rewards : forall k st en c p,
+  Coalescent_moment k None st en c p = mkRoute LineageCounting RUnit k (repeat RTreeHeight k) st en c p.
+Proof. exact gen_moment_default_rewards. Qed.
+Print Assumptions C15_distributions_py_moment_default_rewards.
+
+Theorem C15_distributions_py_state_space_choice : forall k rs st en c p,
+  r_space (Coalescent_moment k (Some rs) st en c p) = LineageCounting <-> Forall (fun r => supports_lc r = true) rs.
+Proof. exact gen_moment_space_iff_supported. Qed.
+Print Assumptions C15_distributions_py_state_space_choice.
+
+Theorem C15_distributions_py_accumulate_same_route_as_moment : forall k rs c p,
+  Coalescent_accumulate k rs c p = Coalescent_moment k rs None None c p.
+Proof. exact gen_accumulate_same_route_as_moment. Qed.
+Print Assumptions C15_distributions_py_accumulate_same_route_as_moment.
+
 From mathcomp Require Import all_ssreflect all_fingroup all_algebra.
 From PG Require Import proofs.CentralMoments.
 Set Implicit Arguments. Unset Strict Implicit. Unset Printing Implicit Defensive.
